@@ -53,6 +53,13 @@ def scenarios(tier, seed):
                         out.append(dict(family=f"dbn/{mode}/{tname}", mode=mode, template=tname, T=T, q=[list(x) for x in q],
                                         ev=[[list(key), s] for key, s in ev2.items()], sym=sym, fixed_seed=k, hashseed=k % 2, budget_s=60,
                                         cost=len(sym) * 10 + T))
+        # two questions on ONE inference object: same slice-0 evidence variables, different states (no stale caches)
+        obs = names[-1]
+        for T in (1, 2):
+            for qv in names[:2]:
+                k += 1
+                out.append(dict(family=f"dbn/sequence/{tname}", mode="sequence", template=tname, T=T, q=[[qv, T]], ev=[[[obs, 0], 0]], ev2=[[[obs, 0], 1]],
+                                sym=[cpd_ids[k % len(cpd_ids)]], fixed_seed=k, hashseed=k % 2, budget_s=60, cost=20))
         out.append(dict(family="dbn/structure", mode="structure", template=tname, T=1, q=[], ev=[], sym=list(cpd_ids), fixed_seed=3, hashseed=0))
     return out
 
@@ -175,7 +182,12 @@ def run(desc, M):
     q = [tuple(x) for x in desc["q"]]
     ev = {tuple(k): s for k, s in desc["ev"]}
     T = max([desc["T"]] + [k[1] for k in ev] + [x[1] for x in q])
-    if desc["mode"] == "forward":
+    if desc["mode"] == "sequence":
+        inf.forward_inference(q, ev or None)  # first question, answer discarded
+        ev = {tuple(k): s for k, s in desc["ev2"]}
+        res = inf.forward_inference(q, ev)
+        desc = dict(desc, mode="forward")
+    elif desc["mode"] == "forward":
         res = inf.forward_inference(q, ev or None)
     elif desc["mode"] == "backward":
         res = inf.backward_inference(q, ev or None)
